@@ -258,7 +258,11 @@ func RunGLSL(c *Case) (o Outcome) {
 		o.Text = text
 		return o
 	}
-	cfg := ctext.RunConfig{Entry: "main", Buffers: map[ctext.Slot][]byte{}, BlockByName: map[string][]byte{}, NumWorkgroups: c.NumWG, StepLimit: c.StepBudget()}
+	// The GLSL writer expands float % textually (a - b * trunc(a / b), operands repeated), so the
+	// straight-line work of one invocation is bounded by the text size, not by the reference's
+	// step count: add it to the budget, which only has to catch wrong loop wiring.
+	inv := int64(c.NumWG[0]) * int64(c.NumWG[1]) * int64(c.NumWG[2]) * int64(c.WGSize[0]) * int64(c.WGSize[1]) * int64(c.WGSize[2])
+	cfg := ctext.RunConfig{Entry: "main", Buffers: map[ctext.Slot][]byte{}, BlockByName: map[string][]byte{}, NumWorkgroups: c.NumWG, StepLimit: c.StepBudget() + int64(len(text))*inv}
 	if opts.BindingMap != nil {
 		// explicit binding map: every block must carry layout(binding = N) with the mapped
 		// number (and the right class: 's' buffer / 'u' uniform); no fallback by name, so a
